@@ -869,6 +869,7 @@ func TestVerifC16Same(t *testing.T) {
 
 func init() {
 	vRegister("C16", "c16.same", checkC16Same)
+	vRegister("C16", "c16.wallclock", checkC16Wall)
 	vRegister("C16", "c16.random", checkC16)
 	vRegister("C16", "c16.enum", checkC16)
 }
@@ -884,4 +885,62 @@ func TestVerifC16Random(t *testing.T) {
 	vRapid(t, "C16", "c16.random",
 		"random draws from the full product of sources for all five settings at once (each source absent, one of four distinguishable values, or for flag/env the documented default given literally), configuration channel none/--config/HR_CONFIG/default location, explicit config missing, --no-database, --flag value and --flag=value forms; oracle: effective value = flag, else env, else config entry, else default, observed through csv database (which book), report quantity (which log, parses in which format), print (date format), csv database-resolved (depth error iff N <= 2), stats and -b today (current date); non-trivial = some setting has >=2 sources with different values, or a missing explicit config, or --no-database",
 		vBudget(1600, 32000), genC16, checkC16)
+}
+
+// the documented default of the current date is the wall clock of the process: its calendar day in the zone of the process
+
+type c16WallCase struct {
+	Zone string `json:"zone"`
+	Via  int    `json:"via"` // 0 stats, 1 summary today on a log that holds the local day and its neighbours
+}
+
+func checkC16Wall(c c16WallCase, ctx *vCtx) *vFailure {
+	loc := vZone(c.Zone)
+	ctx.Label("zone:" + c.Zone)
+	ctx.NonTrivial(true)
+	before := time.Now().In(loc)
+	var lb strings.Builder
+	for d := -2; d <= 2; d++ {
+		fmt.Fprintf(&lb, "%s:\n  food of offset %d: 1\n", before.AddDate(0, 0, d).Format("2006/01/02"), d)
+	}
+	lp := vWriteFile("c16-wall-log.yaml", lb.String())
+	bp := vWriteFile("c16-wall-book.yaml", "unused:\n  x: 1\n")
+	args := []string{"-d", bp, "-l", lp, "--no-color", "stats"}
+	if c.Via == 1 {
+		args = []string{"-d", bp, "-l", lp, "--no-color", "summary", "today"}
+	}
+	r := vRunApp(vInvocation{Args: args, TZ: c.Zone})
+	ctx.Run(1)
+	after := time.Now().In(loc)
+	if before.Format("2006/01/02") != after.Format("2006/01/02") {
+		ctx.Excluded("the local day changed while the program ran")
+		return nil
+	}
+	if r.Failed {
+		return vFailf("%v under TZ=%s fails: %s", args, c.Zone, r.Err)
+	}
+	today := before.Format("2006/01/02")
+	if c.Via == 0 {
+		if so := vReadStats(r.Stdout); so.Today != today {
+			return vFailf("stats under TZ=%s without --today and without a Now entry shows today = %q; the wall clock of the process says %s (UTC: %s)", c.Zone, so.Today, today, before.UTC().Format("2006/01/02"))
+		}
+		return nil
+	}
+	if !strings.Contains(r.Stdout, "food of offset 0") || strings.Contains(r.Stdout, "food of offset 1") || strings.Contains(r.Stdout, "food of offset -1") {
+		return vFailf("summary today under TZ=%s without --today and without a Now entry does not show the record of %s (the day of the process's wall clock; UTC: %s):\n%s", c.Zone, today, before.UTC().Format("2006/01/02"), vTrunc(r.Stdout, 600))
+	}
+	return nil
+}
+
+func TestVerifC16Wall(t *testing.T) {
+	var space []c16WallCase
+	// at every moment the local day of at least one of the first two zones differs from the UTC day
+	for _, z := range []string{"Pacific/Kiritimati", "Pacific/Pago_Pago", "UTC", "Asia/Kolkata", "America/New_York"} {
+		for via := 0; via < 2; via++ {
+			space = append(space, c16WallCase{Zone: z, Via: via})
+		}
+	}
+	vEnum(t, "C16", "c16.wallclock",
+		"no --today and no Now entry: stats and `summary today` under the process zones Pacific/Kiritimati (+14), Pacific/Pago_Pago (-11), UTC, Asia/Kolkata, America/New_York must use the calendar day of the process's wall clock (read before and after the run; a run across local midnight is discarded)",
+		fmt.Sprintf("%d cases", len(space)), len(space), func(i int) c16WallCase { return space[i] }, checkC16Wall)
 }
